@@ -64,4 +64,7 @@ Fixpoint rfirst_bad (chain_fix : bool) (sc su : rstate) (i : N) (l : list (rop *
 
 Definition rinit (ch : list (N * list N)) : rstate := (mkTables ch [] [], no_caches).
 Definition chk_reg_history (c : list (N * list N) * list (rop * list N * list N)) : bool :=
+  let '(ch, l) := c in rfirst_bad true (rinit ch) (rinit ch) 1 l =? 0.
+(* against the code BEFORE the repair d43ed5b (used only to describe a regression) *)
+Definition chk_reg_history_unrepaired (c : list (N * list N) * list (rop * list N * list N)) : bool :=
   let '(ch, l) := c in rfirst_bad false (rinit ch) (rinit ch) 1 l =? 0.
